@@ -115,3 +115,168 @@ Definition rr_key (r : rr) : bytes * N := (rr_owner r, rr_type r).
 
 (* a key instance for evaluation: the key is the draw itself (all weights alike), 0 when Go's key is 0.0 *)
 Definition draw_key (u w : N) : N := if Model.Wrs.dk_pos (u, w) then u else 0.
+
+(* ================================================================== 2. the byte-level CDB reader under Serve *)
+
+(* LookupV1's Section V1 and Serve.reader_v1 with the store interface [get st] replaced by a function *)
+Section Fn.
+Variable b : backend.
+Variable g : bytes -> list row.      (* key -> the rows FindStart / FindNext yield, in order *)
+
+Definition for_each_fn {S} (key : bytes) (f : cb S) (s : S) : S * bool :=
+  let '(s', stt) := iter_rows f (g key) s in (s', for_each_err b stt).
+
+Definition for_each_rr_fn {S} (name loc : bytes) (f : cb S) (s : S) : S * bool :=
+  let '(s1, e1) := if is_loc0 loc then (s, false) else for_each_fn (loc ++ name) f s in
+  if e1 then (s1, true) else for_each_fn (loc0 ++ name) f s1.
+
+Fixpoint is_auth_fn (fuel : nat) (zc loc : bytes) (ns auth : bool) : res authres :=
+  match fuel with
+  | O => OutOfFuel
+  | S f =>
+      let '((ns1, auth1), e1) :=
+        if is_loc0 loc then ((ns, auth), false) else for_each_fn (loc ++ zc) auth_cb (ns, auth) in
+      if e1 then Val (mkAuth false false zc true) else
+      let '((ns2, auth2), e2) :=
+        if auth1 && ns1 then ((ns1, auth1), false) else for_each_fn (loc0 ++ zc) auth_cb (ns1, auth1) in
+      if e2 then Val (mkAuth false false zc true) else
+      if ns2 then Val (mkAuth ns2 auth2 zc false) else
+      z0 <- idx zc 0 ;;
+      if z0 =? 0 then Val (mkAuth ns2 auth2 zc false) else
+      zc' <- slice_from zc (b8 (1 + z0)) ;;
+      is_auth_fn f zc' loc ns2 auth2
+  end.
+Definition is_authoritative_fn (q loc : bytes) : res authres :=
+  is_auth_fn (S (length q)) q loc false false.
+
+Fixpoint find_ans_fn (fuel : nat) (q ctrl qname : bytes) (qtype : N) (loc : bytes) (wild : bool)
+         (s : fa_state) : res fa_state :=
+  match fuel with
+  | O => OutOfFuel
+  | S f =>
+      let s1 := if is_loc0 loc then s else fst (for_each_fn (loc ++ q) (fa_cb qname qtype wild) s) in
+      let s2 := fst (for_each_fn (loc0 ++ q) (fa_cb qname qtype wild) s1) in
+      if snd s2 then Val s2 else
+      if bytes_eqb q ctrl then Val s2 else
+      q0 <- idx q 0 ;;
+      if q0 =? 0 then Val s2 else
+      lab <- slice q 1 (b8 (q0 + 1)) ;;
+      if negb (wildsafe lab) then Val s2 else
+      q' <- slice_from q (b8 (q0 + 1)) ;;
+      find_ans_fn f q' ctrl qname qtype loc true s2
+  end.
+Definition find_answer_fn (q ctrl qname : bytes) (qtype : N) (loc : bytes) (max : N)
+  : res (list item * bool) :=
+  s <- find_ans_fn (S (length q)) q ctrl qname qtype loc false (wrs_empty, [], false) ;;
+  Val (fa_finish qname max s).
+
+Definition reader_fn : reader unit :=
+  mkReader unit
+    (fun c q loc => a <- is_authoritative_fn q loc ;; Val (a, c))
+    (fun c q ctrl qname qtype loc max =>
+       '(an, found) <- find_answer_fn q ctrl qname qtype loc max ;; Val (an, found, c))
+    (fun S c name loc f s => let '(s', e) := for_each_rr_fn name loc f s in Val (s', e, c)).
+End Fn.
+
+(* ServeDNSWithRCODE over the label-by-label reader of a driver given as a function (b: CDB or RDB1 -
+   which ForEach error convention applies) *)
+Definition serve_fn (b : backend) (g : bytes -> list row) (q : query) (locr : locres) (ecs : option ecsval) (max : N)
+  : outcome :=
+  serve_with unit (reader_fn b g) tt q locr ecs max.
+
+(* the CDB driver's ForEach on a file image: FindStart, then FindNext until EOF, of the byte-level
+   reader of Model/Cdb.v (cdb.go read by read) *)
+Definition cdb_get (H : bytes -> N) (data : bytes) (key : bytes) : list row :=
+  match Model.Cdb.bfind_all H data key with Ok vs => vs | Err _ => [] end.
+
+(* the Model/Store.store obtained by reading every listed key back from the image, each key once *)
+Fixpoint dedup_keys (seen ks : list bytes) : list bytes :=
+  match ks with
+  | [] => []
+  | k :: t => if existsb (bytes_eqb k) seen then dedup_keys seen t else k :: dedup_keys (k :: seen) t
+  end.
+Definition store_of_image (H : bytes -> N) (data : bytes) (keys : list bytes) : store :=
+  map (fun k => (k, cdb_get H data k)) (dedup_keys [] keys).
+
+(* ================================================================== 3. Counters beside Serve *)
+
+(* what Model/Serve does not model of a query handling *)
+Record side := mkSide {
+  s_do : bool;           (* state.Do() *)
+  s_mask : N;            (* loc.Mask of the Location FindLocation returned *)
+  s_write_err : bool     (* WriteMsg returned an error *)
+}.
+
+Definition loc_class (sd : side) (locr : locres) : Model.Counters.loc_res :=
+  match locr with
+  | LocErr => Model.Counters.LocErr
+  | LocNil => Model.Counters.LocNil
+  | LocOk l => Model.Counters.LocOk (s_mask sd) (nth 0 l 0) (nth 1 l 0)
+  end.
+
+Definition edns_ok (q : query) : bool := match q_edns q with Some (Npos _) => false | _ => true end.
+
+Section Class.
+Variable C : Type.
+Variable rd : reader C.
+
+(* the description of what happened, from the reader calls Model/Serve.serve_with makes, in its order;
+   [nsent] = len(resp.Answer) of the message given to WriteMsg.  Where a reader call panics or runs out
+   of fuel the handler model has no outcome to describe (Model/Counters has no panic): the remaining
+   fields are filled with defaults and the theorems exclude these runs. *)
+Definition run_class (sd : side) (c0 : C) (q : query) (locr : locres) (max nsent : N) : Model.Counters.qclass :=
+  let packed := lower_bytes (q_name q) in
+  let mk := fun isauth_err ns auth ds_err ds_auth nfound found unpack_ok =>
+    Model.Counters.mkQ true (s_do sd) (q_type q) (edns_ok q) true (loc_class sd locr) false Model.Counters.CMiss
+                       isauth_err ns auth ds_err ds_auth nfound found unpack_ok nsent (s_write_err sd) in
+  let dflt := mk false false false false false 0 false true in
+  match locr with
+  | LocOk loc =>
+      match rd_auth C rd c0 packed loc with
+      | Val (ar, c1) =>
+          if a_err ar then mk true false false false false 0 false true else
+          match serve_ds C rd q loc packed ar c1 with
+          | Val None => mk false (a_ns ar) (a_auth ar) true false 0 false true
+          | Val (Some (ar', c2)) =>
+              match (if a_auth ar'
+                     then '(an, found, c3) <- rd_answer C rd c2 packed (a_zc ar') (q_name q) (q_type q) loc max ;;
+                          Val (item_count an, found)
+                     else Val (0, false)) with
+              | Val (nfound, found) =>
+                  mk false (a_ns ar) (a_auth ar) false (a_auth ar') nfound found
+                     (match parse_name (a_zc ar') with Some _ => true | None => false end)
+              | _ => dflt
+              end
+          | _ => dflt
+          end
+      | _ => dflt
+      end
+  | _ => dflt
+  end.
+
+(* the class of the run that produced [serve_with]'s outcome *)
+Definition serve_class (sd : side) (c0 : C) (q : query) (locr : locres) (ecs : option ecsval) (max : N)
+  : Model.Counters.qclass :=
+  run_class sd c0 q locr max
+            (match serve_with C rd c0 q locr ecs max with OReply x => item_count (rs_an x) | _ => 0 end).
+End Class.
+
+(* the response class of a Serve outcome, as the list of writes the handler made: a reply with rcode
+   SERVFAIL is dns.HandleFailed's bare message (Model/Serve composes no other SERVFAIL); any other reply
+   is the composed response given to WriteMsg: rcode, AA, number of answer records - the number
+   announced by the IPick items, which IS the number after the draw (C11_served_addresses_sound) *)
+Definition resp_class (sd : side) (o : outcome) : option (list Model.Counters.wr) :=
+  match o with
+  | OReply x =>
+      Some [if rs_rcode x =? 2 then Model.Counters.WrBare
+            else Model.Counters.WrComposed (rs_rcode x) (rs_aa x) (item_count (rs_an x)) (negb (s_write_err sd))]
+  | ONoReply => Some []
+  | OPanic | OFuel => None
+  end.
+
+Definition class_of (sd : side) (b : backend) (st : store) (q : query) (locr : locres) (ecs : option ecsval) (max : N)
+  : Model.Counters.qclass :=
+  match b with
+  | RDB2 => serve_class ctx (reader_v2 st) sd [] q locr ecs max
+  | _ => serve_class unit (reader_v1 b st) sd tt q locr ecs max
+  end.
